@@ -15,7 +15,10 @@ Rules on online_check/stdnum.wsgi and template.html (nothing is executed):
  C18.listing  the result list is [info(module, number) for module in get_number_modules()
               if module.is_valid(number)]; info() is reached only from there; every to_*/get_*
               call sits inside `except Exception`.
- C18.template the template's only % directives are the keys the application passes."""
+ C18.template the template's only % directives are the keys the application passes.
+ C18.availability  is_valid() of every module is called without a handler: the C01 obligations (no foreign
+              exception escapes validate()/is_valid(), registry keys present) are re-decided here on the library
+              source; a failure that is not a known finding of C01 is a server error of the page."""
 import ast
 import os
 import re
@@ -249,6 +252,30 @@ def check(tier):
         rep.check(('%%(%s)s' % k) in tpl, 'C18.template', TEMPLATE, '-', k, 0, 'key %s passed by the application is not used by the template' % k)
     m = re.search(r'value="%\(value\)s"', tpl)
     rep.check(m is not None, 'C18.template', TEMPLATE, '-', 'value="%(value)s"', 0, 'the submitted value is not placed inside a double-quoted attribute')
+    # ---- availability: module.is_valid(number) is called for all modules outside any handler; an exception other than
+    #      ValidationError that can escape validate() (C01's obligations, decided on the library source) is a server error here
+    guarded = False
+    if lst is not None:
+        for t in ast.walk(app):
+            if isinstance(t, ast.Try) and any(x is lst for b in t.body for x in ast.walk(b)) and \
+                    any(h.type is None or src(h.type) in ('Exception', 'BaseException') for h in t.handlers):
+                guarded = True
+    if not guarded:
+        from . import c01
+        sub = Report('C18', tier)
+        c01.analyse(sub, tier)
+        from ..common import load_known, match_known
+        known01 = load_known('C01')
+        fresh = []
+        for f in sub.findings:
+            if f.rule.startswith(('C01.sink', 'C01.registry', 'C01.clean-summary', 'C01.is_valid')):
+                if match_known(known01, f) is None:
+                    fresh.append(f)
+        for f in fresh:
+            rep.fail('C18.availability', f.file, f.func, f.construct, f.line,
+                     'the page calls is_valid() of every module for every submitted text without a handler; %s' % f.detail)
+        if not fresh:
+            rep.ok('C18.availability', FILE + ' application', 'no foreign exception can escape any is_valid() (C01 obligations, known findings of C01 excluded)')
     rep.not_decided = ['that formatfn/compactfn never raise on numbers accepted by is_valid() (C04, C01)',
                        'JSON serialisability of every conversion result']
     return rep.finish()
